@@ -99,6 +99,10 @@ def events_trait():
         trait_extra='''
     /// ghost: the events this source will still deliver (if no error intervenes)
     spec fn rest(&self) -> Seq<Ev<'de>>;
+    /// ghost: the next event has been looked at (a successful `peek`), so `reference_location` speaks about IT
+    spec fn primed(&self) -> bool;
+    /// ghost: while an alias is being replayed, the location of the alias token (the use site)
+    spec fn use_site_override(&self) -> Option<Location>;
 ''',
         trait_methods={
             'next': dict(ensures=[('cursor', '''match r {
@@ -108,5 +112,8 @@ def events_trait():
             'peek': dict(ensures=[('cursor', '''match r {
                 Ok(Some(e)) => final(self).rest() == old(self).rest() && old(self).rest().len() > 0 && *e == old(self).rest()[0],
                 Ok(None) => final(self).rest() == old(self).rest() && old(self).rest().len() == 0,
-                Err(_) => true }''')]),
+                Err(_) => true }'''),
+                                  ('C16:a_peeked_event_is_what_reference_location_speaks_about', 'r is Ok && r->Ok_0 is Some ==> final(self).primed()')]),
+            'reference_location': dict(ensures=[('C16:use_site_is_the_alias_token_while_replaying_else_the_peeked_event', '''self.primed() && self.rest().len() > 0 ==>
+                r == spec_use_site(self.use_site_override(), self.rest()[0])''')]),
         })
